@@ -15,7 +15,7 @@ PROPS = ["Props.C10.C10_metrics_totals_exact", "Props.C10.C10_monitor_totals_exa
 INST = ["Inst_C10.metrics_progs_ok", "Inst_C10.monitor_progs_ok", "Inst_C10.max_update_is_cas_loop", "Inst_C10.min_update_is_cas_loop",
         "Inst_C10.tokenization_contributes", "Inst_C10.parse_contributes", "Inst_C10.globals_ok"]
 # which public operations of the mix touch the state of a package (to aim the race-detector search at a broken table entry)
-PKG_OPS = {"pkg/errors": ["suggest", "parse"], "pkg/sql/ast": ["span", "parse", "extract"], "pkg/metrics": ["metrics", "tokenize", "parse"],
+PKG_OPS = {"pkg/config": ["config"], "pkg/errors": ["suggest", "parse"], "pkg/sql/ast": ["span", "parse", "extract"], "pkg/metrics": ["metrics", "tokenize", "parse"],
            "pkg/sql/security": ["scan"], "pkg/linter": ["lint"], "pkg/sql/tokenizer": ["tokenize"], "pkg/sql/parser": ["parse"],
            "pkg/gosqlx": ["parse", "format", "extract"], "pkg/formatter": ["format"], "pkg/sql/keywords": ["tokenize", "parse"]}
 
@@ -411,7 +411,8 @@ def run(tier):
         if w.get("mode") == "rounds":
             res, err = run_rounds(w["n"], w["rounds"] if not quick else min(w["rounds"], 30000), common.seed(), values=w.get("values"))
             evals += 1
-            fails = bool(res is None or res["failed_rounds"])
+            flds = ["metrics." + f for f in k["signature"].get("fields", [])]
+            fails = bool(res is None or (res["failed_rounds"] and (not flds or any(f in res["fail_count"] for f in flds))))
         elif w.get("mode") == "mix":
             rc, res, races, err = run_mix(w["n"], w["ops_per_g"], common.seed(), w["inputs"], ops=w.get("ops"))
             evals += 1
@@ -454,20 +455,21 @@ def run(tier):
     inputs = workload(rng, tier)
     k = 150 if quick else 1500
     mixes = []
+    seen = set()
+    race_files = {w.split(":")[0] for h in race_hits.values() for w in h["where"][:2]}
     for n in [2, nc, 4 * nc]:
         kk = max(20, k * 2 // n) if n > 8 else k
         rc, res, races, err = run_mix(n, kk, common.seed() + n, inputs)
         evals += (res or {}).get("calls", 0)
         mixes.append({"n": n, "ops_per_goroutine": kk, "exit": rc, "races": len(races), "mismatches": (res or {}).get("mismatches"),
                       "calls": (res or {}).get("calls"), "ms": (res or {}).get("ms"), "op_count": (res or {}).get("op_count")})
-        seen = set()
         for r in races:
             sig = (r["kind"], tuple(r["where"][:1]))
             if sig in seen:
                 continue
             seen.add(sig)
-            if any(r["where"][:1] == h["where"][:1] for h in race_hits.values()):
-                continue
+            if r["where"] and r["where"][0].split(":")[0] in race_files:
+                continue   # already reported with the footprint table entry
             hit = [x for x in kf if x["status"] == "known" and x["signature"].get("kind") == "race" and any(x["signature"].get("where", "#") in w for w in r["where"])]
             if hit:
                 rp.known(hit[0]["key"], hit[0]["what"])
@@ -497,7 +499,7 @@ def run(tier):
     rp.cov["distinct_nontrivial"] = len({i for i in inputs if len(i) > 10}) + len(rounds_samples)
     rp.cov["rule"] = ("proof obligations over the programs/tables regenerated from the source; sequential replay of random Record* call sequences (model vs GetStats); "
                       "barrier-released rounds with n in {2,4,cores-1,4*cores} goroutines, one recording each per round, seeded sizes 1..100000 and errors, totals compared after quiescence; "
-                      "race-detector mixes with n in {2,cores,4*cores} over %d shared inputs (corpus + generated + malformed), 9 operation kinds, every result compared with the sequential table; "
+                      "race-detector mixes with n in {2,cores,4*cores} over %d shared inputs (corpus + generated + malformed), 10 operation kinds, every result compared with the sequential table; "
                       "non-trivial = distinct workload input longer than 10 bytes / distinct round configuration" % len(inputs))
     rp.cov["samples"] = [inputs[0][:200], rounds_samples[:1], mixes[:1]]
     rp.cov["cores"] = nc
